@@ -222,7 +222,9 @@ def check(P: Project, R: Report) -> None:
             return "callback:" + "|".join(subst_text(a, st) for a in call.args) + "||" + "&&".join(sorted(st.lits))
         return None
 
-    pa, po = run_paths(body, event_of=pev, fallible=True)
+    from ..summaries import predicate_inliner
+
+    pa, po = run_paths(body, event_of=pev, fallible=True, inliner=predicate_inliner(P, wait))
     pa.parents = A.exception_parents(P)
     called = [st for st in list(po.cont) + list(po.normal) + [s for s, _n in po.ret] + [s for s, _t, _n in po.exc] if any(e.startswith("callback:") for e in st.events)]
     R.need(called, "anchor: no path calls the progress callback")
